@@ -44,6 +44,8 @@ def _len_arg(e):
 
 def _len_key(e):
     """union-find key of a length expression: len(X) or a local name holding a length"""
+    if isinstance(e, ast.NamedExpr) and isinstance(e.target, ast.Name):
+        return "len:" + e.target.id if _len_arg(e.value) is not None else _len_key(e.value)
     la = _len_arg(e)
     if la is not None:
         return "seq:" + U(la)
@@ -86,6 +88,14 @@ def analyse(fn, inf=None):
     body = fn.node
     # facts
     for n in ast.walk(body):
+        if isinstance(n, ast.NamedExpr) and isinstance(n.target, ast.Name) and _len_arg(n.value) is not None:
+            uf.union("len:" + n.target.id, "seq:" + U(_len_arg(n.value)))       # (n := len(X))
+        if isinstance(n, ast.Assign) and len(n.targets) == 1 and isinstance(n.targets[0], (ast.Tuple, ast.List)) \
+                and isinstance(n.value, (ast.Tuple, ast.List)) and len(n.targets[0].elts) == len(n.value.elts):
+            for tt, vv in zip(n.targets[0].elts, n.value.elts):                # a, b = tuple(a), tuple(b)
+                if isinstance(tt, ast.Name) and isinstance(vv, ast.Call) and isinstance(vv.func, ast.Name) \
+                        and vv.func.id in ("tuple", "list") and len(vv.args) == 1 and not isinstance(vv.args[0], (ast.GeneratorExp, ast.ListComp)):
+                    uf.union("seq:" + tt.id, "seq:" + U(vv.args[0]))
         if isinstance(n, ast.Assign) and len(n.targets) == 1 and isinstance(n.targets[0], ast.Name):
             t, v = n.targets[0].id, n.value
             la = _len_arg(v)
